@@ -81,6 +81,35 @@ def scenario(kind, mk_lock, mk_cond, mk_tmp, between):
     return out
 
 
+def undecodable_after(m, first):
+    """one client connection: `first` (a call answered by the server's fallback, or an ordinary one), then
+    an operation whose argument the server cannot unpickle (a class the server process does not know).
+    The operation either takes effect or raises: it is never dropped with a made-up return value."""
+    out = {}
+    lst = m.list()
+    dct = m.dict()
+    Late = type('LateDefinedClass_%d' % os.getpid(), (object,), {'__module__': '__main__'})
+    import __main__
+    setattr(__main__, Late.__name__, Late)          # picklable here, unknown to the server process
+    for name, target, op in (('list.append', lst, lambda: lst.append(Late())),
+                             ('dict.__setitem__', dct, lambda: dct.__setitem__('k', Late()))):
+        if first == 'str':
+            str(target)
+        elif first == 'repr':
+            repr(target)
+        elif first == 'getvalue':
+            target._getvalue()
+        elif first == 'len':
+            len(target)
+        try:
+            ret = op()
+            outcome = ['returned', repr(ret)[:40]]
+        except BaseException as exc:      # noqa
+            outcome = ['raised', type(exc).__name__]
+        out[name] = dict(outcome=outcome, size_after=len(target))
+    return out
+
+
 def main():
     spec = json.load(sys.stdin)
     import billiard
@@ -102,6 +131,8 @@ def main():
                 for t, stop in KEEP:
                     t.join(10)
                 del KEEP[:]
+        for first in ('none', 'len', 'str', 'repr', 'getvalue'):
+            res.append(dict(kind='undecodable-after', first=first, ops=undecodable_after(m, first)))
     finally:
         sys.stdout.write('\n' + json.dumps(res) + '\n')
         sys.stdout.flush()
